@@ -131,8 +131,7 @@ func (w *world) wait(g, i int, prev uint64, planned int, blockP *atomic.Uint64) 
 	}
 	rec.SeqStart = w.seq.Add(1)
 	r, err := w.tr.WaitForChange(ctx, prev)
-	rec.SeqEnd = w.seq.Add(1)
-	rec.T1 = w.now()
+	seqEnd, t1 := w.seq.Add(1), w.now()
 	returned.Store(true)
 	close(rescueStop)
 	rescue.Stop()
@@ -142,20 +141,17 @@ func (w *world) wait(g, i int, prev uint64, planned int, blockP *atomic.Uint64) 
 	if blockP != nil {
 		blockP.Store(0)
 	}
+	w.mu.Lock()
 	rec.TermStartedAfter = w.termStarted.Load()
 	rec.CancelInvoked = cancelInvoked.Load()
 	rec.Hi = 1 + w.started.Load()
+	rec.SeqEnd, rec.T1 = seqEnd, t1
 	rec.R, rec.Err = r, errName(err)
 	rec.RescueAt = rescueAt.Load()
 	// A planned cancellation only creates an obligation if it was invoked
 	// before the call returned; the value is read after the return, and a
 	// cancel that raced with the return is at worst a later time.
 	rec.CancelAt = cancelAt.Load()
-	if rec.RescueAt != 0 && (rec.CancelAt == 0 || rec.CancelAt >= rec.RescueAt) {
-		// CancelAt was set by nothing but the rescue itself.
-		rec.CancelAt = 0
-	}
-	w.mu.Lock()
 	rec.Returned = true
 	w.mu.Unlock()
 	return rec
@@ -440,7 +436,7 @@ func TestC30_Schedules(t *testing.T) {
 		"rapid: 1-12 goroutines x 1-8 steps (notify / lock+unlock / lock+unlock-without-notify / wait with previous index zero|current|last|stale|future and no|pre|timed cancellation / terminate / yield / sleep) run against the real tracker; "+
 			"non-trivial: >= 2 goroutines and at least one long-poll whose previous index could still be current when it was issued and that was released by a later change")
 	rec.Note("timing_bound", bound.String())
-	ev.Check(t, rec, 2500, 40000, func(rt *rapid.T) {
+	ev.Check(t, rec, 5000, 60000, func(rt *rapid.T) {
 		c := genCase(rt)
 		v, fail := execute(c)
 		rec.Eval()
